@@ -28,14 +28,14 @@ def run(ctx):
     t1, n1 = h1common.run_h1srv(ctx, drv, hist, o1, modes="buffered,streaming", idle="inloop", cuts="whole,bytewise" if ctx.quick else "whole,bytewise,rand2x6",
                                 extra=["-trace", "off"])
     r1 = lib.validate(ctx, "H1ServerTrace", "H1ServerTrace.cfg", t1, timeout=1800)
-    lib.handle_rejections(ctx, r1, lambda cl: rerun(ctx, cl))
+    lib.handle_rejections(ctx, r1, lambda cl: rerun(ctx, cl), rerun_hist=lambda seq: h1common.rerun_h1srv_hist(ctx, seq))
     # (a2) mutated streams
     mut, nm = lib.gen_cases(ctx, "H1MutGen", "H1MutGen_quick.cfg" if ctx.quick else "H1MutGen_thorough.cfg", out_name="mut.ndjson", timeout=1800)
     o2 = ctx.sub("traces_loose")
     t2, n2 = h1common.run_h1srv(ctx, drv, mut, o2, modes="buffered,streaming", idle="inloop" if ctx.quick else "inloop,poller",
                                 cuts="whole,bytewise" if ctx.quick else "whole,bytewise,rand2x6")
     r2 = lib.validate(ctx, "H1RejectTrace", "H1RejectTrace.cfg", t2, timeout=1800)
-    lib.handle_rejections(ctx, r2, lambda cl: rerun(ctx, cl))
+    lib.handle_rejections(ctx, r2, lambda cl: rerun(ctx, cl), rerun_hist=lambda seq: h1common.rerun_h1srv_hist(ctx, seq, module="H1RejectTrace", cfg="H1RejectTrace.cfg"))
 
     # binding self-tests
     def panic_event(recs):
